@@ -228,6 +228,24 @@ VF_PROPERTY(parse_float_strings, 4, "strings from a floating-literal grammar (di
 	if ((e = check_float_parse<float>(s, d)) || (e = check_float_parse<double>(s, d))) c.fail(e, d);
 }
 
+// wide strings beyond Latin-1: a text in char16_t / char32_t / wchar_t must be treated exactly like its UTF-8 form in char
+// (a unit such as U+0131 is not the digit '1' although its low byte is 0x31)
+template <class T, class W> const char* wide_vs_utf8(const std::basic_string<W>& w, std::string& detail) {
+	refutf::Scalars sc; if constexpr (sizeof(W) == 2) { if (!refutf::dec16(std::u16string(w.begin(), w.end()), sc)) return nullptr; } else sc.assign(w.begin(), w.end());
+	const std::string u8 = refutf::enc8(sc); const Res<T> a = parse<T>(u8), b = parse<T>(w);
+	if (a.k != b.k || (a.k == KValue && !same_bits(a.v, b.v))) { detail = vf::cat(tname<T>(), " utf8=", show(u8), " char:", a.k, a.k == KValue ? vf::cat("(", a.v, ")") : std::string(), " ", sizeof(W) * 8, "-bit:", b.k, b.k == KValue ? vf::cat("(", b.v, ")") : std::string()); return "a wide string is parsed differently from its UTF-8 form"; }
+	return nullptr;
+}
+VF_PROPERTY(parse_wide_non_ascii, 2, "literals from the integer / float grammars in which some characters are replaced by non-ASCII code units with the same low byte (U+0131 for '1', U+012D for '-', U+4E39 for '9', U+1F431 ...), as char16_t, char32_t and wchar_t strings, into int32, uint8, int64, float and double: the outcome (value or exception class) must equal that of the UTF-8 form parsed through the char API; non-trivial = at least one unit is >= U+0100")
+{
+	std::string s = c.src.coin() ? gen_int_string(c.src) : gen_float_string(c.src); for (auto& ch : s) if (static_cast<unsigned char>(ch) >= 0x80 || ch == 0) ch = '7';
+	std::u32string w; bool any = false; for (unsigned char ch : s) { char32_t u = ch; if (c.src.chance(1, 4)) { const uint64_t k = c.src.draw(3); u = k == 0 ? ch + 0x100u * (1 + static_cast<uint32_t>(c.src.draw(200))) : k == 1 ? ch + 0x10000u * (1 + static_cast<uint32_t>(c.src.draw(16))) : ch + 0x100u; if (u >= 0xD800 && u <= 0xDFFF) u = ch + 0x100u; any = true; } w.push_back(u); }
+	c.nontrivial = any; c.describe(vf::cat(show(s), " wide=", refutf::show(w.substr(0, 12)))); std::string d; const char* e = nullptr;
+	const std::u16string w16 = refutf::enc16(w); const std::wstring ww(w.begin(), w.end());
+	if ((e = wide_vs_utf8<int32_t>(w, d)) || (e = wide_vs_utf8<int32_t>(w16, d)) || (e = wide_vs_utf8<int32_t>(ww, d)) || (e = wide_vs_utf8<uint8_t>(w, d)) || (e = wide_vs_utf8<uint8_t>(w16, d)) || (e = wide_vs_utf8<int64_t>(w16, d)) || (e = wide_vs_utf8<double>(w, d)) || (e = wide_vs_utf8<double>(w16, d)) || (e = wide_vs_utf8<float>(ww, d)) || (e = wide_vs_utf8<bool>(w16, d)))
+		c.fail(e, d);
+}
+
 VF_PROPERTY(parse_bool_strings, 1, "bool literals 0/1/true/false in any letter case with blanks, other digits, trailing text; agree across 4 widths; non-trivial = not exactly one of the four canonical spellings")
 {
 	static const char* W[] = { "true", "false", "0", "1", "2", "10", "01", "-1", "t", "tru", "yes", "" , "TRUE", "False", "fAlSe", "truex", "1x", "0.5", "9", "1e5", "0e-3", "1.", "1e", "0.x" };
